@@ -16,15 +16,17 @@ Definition model (i : input) : obs :=
   let '(r2, _) := observe (i_prog i) s1 in
   {| o_first := r1; o_second := r2 |}.
 
-(* what the statement pins down of an observation: per run the log, the leftovers and vars(scratch);
-   of the outcomes only whether the second run repeats the first (which outcome it is, is C03's subject) *)
+(* what the statement pins down of an observation: per run the log, the leftovers and the namespaces of the
+   patched objects as a mapping over the keys the harness uses (Model.Run.normal: Python fixes no order
+   across objects); of the outcomes only whether the second run repeats the first (which outcome it is, is
+   C03's subject) *)
 Definition repeats (o : obs) : bool := list_eqb outcome_eqb (r_outs (o_second o)) (r_outs (o_first o)).
 Definition alpha (o : obs) :=
-  (r_log (o_first o), r_left (o_first o), r_attrs (o_first o),
-   (r_log (o_second o), r_left (o_second o), r_attrs (o_second o)), repeats o).
+  (r_log (o_first o), r_left (o_first o), normal (r_attrs (o_first o)),
+   (r_log (o_second o), r_left (o_second o), normal (r_attrs (o_second o))), repeats o).
 Definition runobs_eqb (a b : runobs) : bool :=
   list_eqb lev_eqb (r_log a) (r_log b) && Nat.eqb (r_left a) (r_left b)
-  && list_eqb nn_eqb (r_attrs a) (r_attrs b).
+  && list_eqb nn_eqb (normal (r_attrs a)) (normal (r_attrs b)).
 Definition obs_eqb (a b : obs) : bool :=
   runobs_eqb (o_first a) (o_first b) && runobs_eqb (o_second a) (o_second b) && Bool.eqb (repeats a) (repeats b).
 
